@@ -482,6 +482,15 @@ class SInt(object):
         hi = min(self.hi, lim)
         return mk(bvv(1) << (self.t * bvv(k)), 1, 1 << (k * hi))
 
+    def bit_length(self):
+        """int.bit_length of the true value (number of bits of the magnitude)"""
+        self.need_exact('bit_length')
+        mag = z3.If(self.t < 0, -self.t, self.t)
+        r = bvv(0)
+        for i in range(Ctx.W - 1):
+            r = z3.If(z3.Extract(i, i, mag) == z3.BitVecVal(1, 1), bvv(i + 1), r)
+        return mk(r, 0, max(abs(self.lo), abs(self.hi)).bit_length())
+
     def __abs__(self):
         self.need_exact('abs')
         m = max(abs(self.lo), abs(self.hi))
@@ -546,8 +555,6 @@ class SInt(object):
     def __float__(self):
         return float(self.__index__())
 
-    def bit_length(self):
-        raise PathAbort('bit_length')
 
     def __repr__(self):
         if getattr(Ctx.cur, 'render_map', None) is not None:
